@@ -10,7 +10,7 @@
    [fix_applied] below is the single switch that turns the model into the one of the
    repaired code (design/C16.fix.diff). *)
 From Coq Require Import List NArith Bool.
-From GQ Require Import Lib.Key.
+From GQ Require Import Lib.Key Generated.C16Sites.
 Import ListNotations.
 Local Open Scope N_scope.
 
@@ -367,15 +367,17 @@ Inductive input :=
 | ICheckQi (b : bytes) (l : location)
 | IConvOut (b : bytes) (l : location)
 | IGuard (a : bytes) (l : location)
-| IGrind (l : location) (attempts gas cost : N) (prefixes : list (N * N)) (final : bytes)
-| ICreate (l : location) (d0 : bytes) (attempts gas cost : N) (prefixes : list (N * N)) (final : bytes).
+| IGrind (l : location) (block_number gas cost : N) (prefixes : list (N * N)) (final : bytes)
+| ICreate (l : location) (d0 : bytes) (block_number gas cost : N) (prefixes : list (N * N)) (final : bytes)
+| IQiOut (addr : bytes) (datalen : N) (l : location).
 
 Inductive obs :=
 | OAddr (class : N) (a : bytes) (zone : location) (qi iquai iqi : bool)   (* class 0 = internal, 1 = external *)
 | OErr
 | OBytes (a : bytes)
 | OBool (b : bool)
-| OGrind (r : grind_res).
+| OGrind (r : grind_res)
+| OQi (q : qi_out).
 
 Definition obs_of_res (r : res) : obs :=
   match r with
@@ -390,7 +392,15 @@ Definition obs_of_res (r : res) : obs :=
    outcome (address bytes 0 and 1); the last one is given in full *)
 Definition expand (p : N * N) : bytes := repeat 0 12 ++ fst p :: snd p :: repeat 0 18.
 Definition digest_fun (prefixes : list (N * N)) (final : bytes) (i : N) : bytes :=
-  nth (N.to_nat i) (map expand prefixes) final.
+  match nth_error prefixes (N.to_nat i) with
+  | Some p => expand p
+  | None => final
+  end.
+
+(* the attempt bound of the running code: generated constants of params *)
+Definition attempts_at (block_number : N) : N :=
+  grind_attempts C16Sites.previous_max_address_grind_attempts C16Sites.max_address_grind_attempts
+                 C16Sites.max_grind_increase_fork_block block_number.
 
 Definition eval (i : input) : obs :=
   match i with
@@ -412,14 +422,25 @@ Definition eval (i : input) : obs :=
   | ICheckQi b l => OBool (check_internal_qi b l)
   | IConvOut b l => OBool (is_conversion_output b l)
   | IGuard a l => OBool (create_object_guard a l)
-  | IGrind l n g c ps f => OGrind (grind (digest_fun ps f) l n g c)
-  | ICreate l d0 n g c ps f => OGrind (create_select d0 (digest_fun ps f) l n g c)
+  | IGrind l bn g c ps f => OGrind (grind (digest_fun ps f) l (attempts_at bn) g c)
+  | ICreate l d0 bn g c ps f =>
+      match create_select d0 (digest_fun ps f) l (attempts_at bn) g c with
+      | GOk a _ => OBytes a
+      | GErr => OErr
+      end
+  | IQiOut addr dl l => OQi (qi_output addr dl l)
   end.
 
 Definition grind_res_eqb (a b : grind_res) : bool :=
   match a, b with
   | GOk x g, GOk y h => keqb x y && (g =? h)
   | GErr, GErr => true
+  | _, _ => false
+  end.
+
+Definition qi_out_eqb (a b : qi_out) : bool :=
+  match a, b with
+  | QConvert, QConvert | QWrap, QWrap | QReject, QReject | QEtx, QEtx | QUtxo, QUtxo => true
   | _, _ => false
   end.
 
@@ -431,6 +452,7 @@ Definition obs_eqb (x y : obs) : bool :=
   | OBytes a, OBytes b => keqb a b
   | OBool a, OBool b => Bool.eqb a b
   | OGrind a, OGrind b => grind_res_eqb a b
+  | OQi a, OQi b => qi_out_eqb a b
   | _, _ => false
   end.
 
